@@ -33,7 +33,7 @@ LEVEL_NOTE = ("trusted: Coq kernel + vm_compute, PrimFloat primitives (data-fram
 TECHNIQUE = "Coq proof over executable store/codec/heap models; in-Coq vm_compute correspondence with the implementation; ast-generated field tables"
 RULE = ("case kinds from one PRNG: h5 (class, group name incl. nested/non-ASCII/absolute, 1-3 objects written to the same location with "
         "overwrite flags, rich->poor sequences, optional fields all/none/mixed, grouped or arbitrary metadata, file name or open handle), wd "
-        "(h5py_File_write_dict called directly with nested dictionaries and None items), copy (14 classes x copy/deepcopy/method forms, then "
+        "(h5py_File_write_dict called directly with nested dictionaries, None items, str/bytes members, a dictionary replacing data and the reverse), copy (14 classes x copy/deepcopy/method forms, then "
         "every reachable array/dict of the copy is mutated), vcf (1-4 samples, 1-6 phased diploid records, unsorted, '.' identifiers, non-ASCII "
         "names, phased and unphased class, with and without grouping, a share with tied coordinates), df (7 classes via pandas or CSV with "
         "matching options, dyadic and awkward floats, sorted/unsorted and absent labels, cM/M units); non-trivial = an object with both present "
